@@ -261,7 +261,8 @@ def gen_wbopt(rng, blocks, exact):
                     if v is not None and rng.random() < .4 and formula_for(v, exact) is not None:
                         computed.append([b, i, j])
     return {'origin': [rng.randint(1, 3), rng.randint(1, 3)], 'xsheet': rng.random() < .3,
-            'computed': computed, 'sep': rng.random() < .15}
+            'computed': computed, 'sep': rng.random() < .15,
+            'refform': rng.choice(('literal', 'literal', 'literal', 'offset', 'indirect'))}
 
 
 def gen_agg(rng, r, c, cls, exact, path):
@@ -386,6 +387,12 @@ def ref_text(block, rect, opt):
     a = wb.coord(col0 + 6 * block + c0, row0 + r0)
     b = wb.coord(col0 + 6 * block + c1, row0 + r1)
     prefix = f"'{DATA_SHEET}'!" if opt['xsheet'] else ''
+    form = opt.get('refform', 'literal')
+    if form == 'offset':
+        # the same rectangle, named by a reference-returning call
+        return f'OFFSET({prefix}{a},0,0,{r1 - r0 + 1},{c1 - c0 + 1})'
+    if form == 'indirect':
+        return f'INDIRECT("{prefix}{a}:{b}")'
     return f'{prefix}{a}:{b}'
 
 
@@ -456,6 +463,8 @@ def evaluate(ctx, sc, blocks, queries):
         ctx.count('pycel_calls')
         ctx.count('calls:' + q.func.split(':')[0])
         ctx.count('calls:' + sc['path'])
+        if sc['path'] == 'wb':
+            ctx.count('range-named-by:' + sc['wbopt'].get('refform', 'literal'))
     return queries
 
 
@@ -594,6 +603,9 @@ def report(ctx, sc, q, key, msg):
     q.bad = True
     case = dict(sc)
     case['failing'] = q.tag
+    form = (sc.get('wbopt') or {}).get('refform', 'literal')
+    if sc['path'] == 'wb' and form != 'literal':
+        key += f'/range-named-by-{form}'
     ctx.violation(key, msg, case)
 
 
@@ -885,6 +897,14 @@ RUNNERS = {'agg': run_agg, 'subtotal': run_subtotal, 'sumproduct': run_sumproduc
 
 def execute(ctx, sc):
     ctx.count('scenarios:' + sc['kind'] + ':' + sc['path'])
+    form = (sc.get('wbopt') or {}).get('refform', 'literal')
+    if sc['path'] == 'wb' and form != 'literal':
+        # first with the rectangle written out: what fails there is not about how the range is named
+        plain = dict(sc, wbopt=dict(sc['wbopt'], refform='literal'))
+        before = sum(v['count'] for v in ctx.violations.values())
+        RUNNERS[sc['kind']](ctx, plain)
+        if sum(v['count'] for v in ctx.violations.values()) != before:
+            return
     RUNNERS[sc['kind']](ctx, sc)
 
 
